@@ -657,6 +657,7 @@ func raceSite(blk string) string {
 func init() {
 	replayRegistrars = append(replayRegistrars, func() {
 		registerReplay("C16/workloads", runIsoCase)
+		registerReplay("C16/xattr-isolation", runXattrIsoCase)
 		registerReplay("C16/release-during-notification", runNotifyRaceCase)
 		registerReplay("C16/flush-waiters", func(c batchCase) *fail { return runBatchCase(c, nil) })
 	})
@@ -666,6 +667,21 @@ func TestC16(t *testing.T) {
 	h := begin(t, "C16")
 	defer h.Finish()
 	env := h.Env
+	// attribute values and file contents of equal length set by many sessions at once
+	{
+		for rep := 0; rep < env.Pick(32, 320)/env.NShards+1; rep++ {
+			c := xattrIsoCase{Sessions: 2 + (rep+env.Shard)%7, Rounds: 30, Len: []int{4, 5, 24, 100, 5000}[(rep+env.Shard)%5], Native: rep%2 == 0}
+			f := runXattrIsoCase(c)
+			h.Case(evid.HashJSON(c)+uint64(rep*64+env.Shard), c.Sessions >= 2, "xattr-isolation")
+			if f != nil && strings.HasPrefix(f.Sig, "harness-") {
+				t.Errorf("HARNESS-ERROR %s", f.Msg)
+				continue
+			}
+			if h.report("xattr-isolation", f, c) {
+				return
+			}
+		}
+	}
 	maxW := env.Pick(16, 64)
 	// directed schedules that are too rare for the random workloads: the last
 	// fid of a File disappears while a rename is inside its notification
